@@ -103,9 +103,20 @@ def roadm_path_maxloss(el, from_degree, degree, freqs):
     return out
 
 
-def roadm_event(ev, max_ch=12):
+def launched_offsets(req):
+    """per-channel power offset of the LAUNCHED request, keyed by channel frequency (Hz): the user spectrum's delta_pdb
+    of each carrier, or the request's uniform offset.  This is the configuration input; the spectral information's own
+    delta_pdb_per_channel array is an observation that travels with the channels and may be corrupted on the way."""
+    if getattr(req, 'initial_spectrum', None):
+        return {float(f): float(c.delta_pdb) for f, c in req.initial_spectrum.items()}
+    return float(getattr(req, 'offset_db', 0.0) or 0.0)
+
+
+def roadm_event(ev, max_ch=12, offset_of=None):
     """Recording event of a Roadm crossing -> integer event (or None when the configuration is outside the domain the
-    property decides: the egress degree carries settings of two kinds)"""
+    property decides: the egress degree carries settings of two kinds).  offset_of: launched_offsets(req) when the
+    crossing happened inside propagate(); None: the offsets are those of the spectral information handed to the ROADM
+    (direct calls with a harness-built spectral information)"""
     el, pre, post = ev['el'], ev['pre'], ev['post']
     degree, from_degree = ev['args']['degree'], ev['args']['from_degree']
     npol, node = roadm_node_policy(el)
@@ -118,8 +129,14 @@ def roadm_event(ev, max_ch=12):
     pin, pout = dbm(pre['pch']), dbm(post['pch'])
     ch = []
     for k in pick_channels(len(pin), max_ch):
+        if offset_of is None:
+            off = pre['delta_pdb_per_channel'][k]
+        elif isinstance(offset_of, dict):
+            off = offset_of[float(pre['frequency'][k])]
+        else:
+            off = offset_of
         ch.append({'baudDb': udb(db(pre['baud_rate'][k] / 1e9)), 'slotDb': udb(db(pre['slot_width'][k] / 1e9)),
-                   'offset': udb(pre['delta_pdb_per_channel'][k]), 'in': udb(pin[k]), 'maxloss': udb(ml[k]),
+                   'offset': udb(off), 'in': udb(pin[k]), 'maxloss': udb(ml[k]),
                    'out': udb(pout[k]),
                    # what the element reports about this crossing (must be projected before it is crossed again)
                    'lossRep': udb(el.loss_pch_db[k]), 'poutRep': udb(el.pch_out_dbm[k])})
@@ -266,6 +283,9 @@ def edfa_event(ev, gain_set, max_ch=12):
     g_tot = db(np.sum(pin * gch) / np.sum(pin))
     q = dbm(H_PLANCK * pre['frequency'][ip] * pre['baud_rate'][ip])
     nf = np.broadcast_to(np.asarray(el.nf, dtype=float), (len(jp),)) if np.ndim(el.nf) == 0 else np.asarray(el.nf)[jp]
+    # configured NF ripple at each channel frequency (configuration projection: the table is laid evenly over the band)
+    rip_tab = np.atleast_1d(np.asarray(el.params.nf_ripple, dtype=float))
+    nf_rip = np.interp(pre['frequency'][ip], np.linspace(el.params.f_min, el.params.f_max, len(rip_tab)), rip_tab)
     flat_in = 1 if (np.max(pin) - np.min(pin)) <= 1e-9 * np.max(pin) else 0
     ripple = 1 if np.any(np.asarray(el.params.gain_ripple, dtype=float) != 0) else 0
     band = el.params.bands[0]
@@ -278,7 +298,9 @@ def edfa_event(ev, gain_set, max_ch=12):
          'tilt': udb(el.tilt_target or 0.0), 'ripple': ripple, 'flatIn': flat_in,
          'pinRaw': udb(dbm(np.sum(pin))), 'effObs': udb(el.effective_gain), 'padObs': udb(el.att_in),
          'gTot': udb(g_tot), 'poutObs': udb(el.pout_db), 'poutTot': udb(dbm(np.sum(post['pch']))),
-         'ch': [{'q': udb(q[k]), 'nf': udb(nf[k]), 'ase': udb(dbm(ase_in[k])), 'gain': udb(db(gch[k]))} for k in sel],
+         'fresh': 0,
+         'ch': [{'q': udb(q[k]), 'nf': udb(nf[k]), 'nfRip': udb(nf_rip[k]), 'ase': udb(dbm(ase_in[k])),
+                 'gain': udb(db(gch[k]))} for k in sel],
          'bandDecided': band_decided,
          'band': {'fmin': mhz(band['f_min']), 'fmax': mhz(band['f_max'])},
          'inb': [{'f': mhz(f), 'w': mhz(w)} for f, w in zip(pre['frequency'], pre['slot_width'])],
@@ -356,7 +378,11 @@ def load_designed(topology, eqpt, spectrum=None, eqpt_dir=EX):
         net = network_from_json(load_json(tpath), eq)
     else:
         net = load_network(tpath, eq)
-    init = load_initial_spectrum(EX / spectrum) if spectrum else None
+    if isinstance(spectrum, dict):                       # a spectrum document built by the check (same format as the files)
+        from gnpy.tools.json_io import _spectrum_from_json
+        init = _spectrum_from_json(copy.deepcopy(spectrum['spectrum']))
+    else:
+        init = load_initial_spectrum(EX / spectrum) if spectrum else None
     net, req, _ = designed_network(eq, net, initial_spectrum=init)
     gains = {}
     for n in net.nodes():
@@ -407,6 +433,16 @@ def record_paths(eq, req, paths):
         with Recording(keep_element=True) as rec:
             propagate(path, copy.copy(req), eq)
         yield f'{path[0].uid}->{path[-1].uid}', rec.take()
+
+
+def with_fresh_reference(e, e_fresh):
+    """attach to crossing event e the per-channel gain / NF of the same crossing made on a FRESH amplifier (NoMemory)"""
+    if len(e['ch']) != len(e_fresh['ch']):
+        raise Machinery('fresh reference crossing has another channel set')
+    for c, f in zip(e['ch'], e_fresh['ch']):
+        c['gainFresh'], c['nfFresh'] = f['gain'], f['nf']
+    e['fresh'] = 1
+    return e
 
 
 def gain_set_of(ev, gains):
